@@ -20,7 +20,8 @@ Record RInvX (s : rstate) (x : option nat) : Prop := {
   inv_start : ∀ id j t, rs_jobs s !! id = Some j → r_start j = Some t →
               r_created j + Z.of_nat (r_delay j) <= t ∧ t <= rs_now s;
   inv_created : ∀ id j, rs_jobs s !! id = Some j → r_created j <= rs_now s;
-  inv_x : ∀ id, x = Some id → id ∉ wl_get (rs_wait s) (default 0%nat (r_pipe <$> rs_jobs s !! id))
+  inv_x : ∀ id, x = Some id → id ∉ wl_get (rs_wait s) (default 0%nat (r_pipe <$> rs_jobs s !! id));
+  inv_creq : ∀ id j, rs_jobs s !! id = Some j → r_creq j = true → r_completed j = true → r_canceled j = true
 }.
 Definition RInv (s : rstate) : Prop := RInvX s None.
 
@@ -92,13 +93,14 @@ Lemma upd_inv s x x' id j f :
   r_pipe (f j) = r_pipe j → r_created (f j) = r_created j → r_delay (f j) = r_delay j → r_removed (f j) = r_removed j →
   (r_live (f j) = true → is_Some (r_start (f j)) ∧ r_completed (f j) = false ∧ r_canceled (f j) = false) →
   (r_completed (f j) = true → is_Some (r_start (f j))) →
+  (r_creq (f j) = true → r_completed (f j) = true → r_canceled (f j) = true) →
   (r_is_waiting (f j) = true → r_is_waiting j = true ∧ (r_timer (f j) = false → r_created j + Z.of_nat (r_delay j) <= rs_now s)) →
   (∀ t, r_start (f j) = Some t → r_created j + Z.of_nat (r_delay j) <= t ∧ t <= rs_now s) →
   (id ∈ wl_get (rs_wait s) (r_pipe j) → r_is_waiting (f j) = true) →
   (x' = x ∨ (x = Some id ∧ x' = None ∧ r_is_waiting (f j) = false)) →
   RInvX (r_upd s id f) x'.
 Proof.
-  intros [] Hj Hp Hc Hd Hr Hlive Hcomp Hwait Hstart Hq Hx.
+  intros [] Hj Hp Hc Hd Hr Hlive Hcomp Hcreq Hwait Hstart Hq Hx.
   split.
   - intros id' j'. rewrite r_upd_lookup. destruct (decide (id = id')) as [<-|Hne]; [|by apply inv_live0].
     rewrite Hj. intros [= <-]. done.
@@ -124,6 +126,8 @@ Proof.
   - intros i Hi. assert (Hxi : x = Some i) by (destruct Hx as [->|(_ & -> & _)]; done).
     specialize (inv_x0 i Hxi). rewrite r_upd_lookup. destruct (decide (id = i)) as [<-|Hne]; [|done].
     rewrite Hj in *. simpl in *. by rewrite Hp.
+  - intros id' j'. rewrite r_upd_lookup. destruct (decide (id = id')) as [<-|Hne]; [|by apply inv_creq0].
+    rewrite Hj. intros [= <-]. done.
 Qed.
 
 (** changing one wait list: jobs may leave it (one of them becoming the exempt job) and the exempt job may join it *)
@@ -194,6 +198,7 @@ Proof.
   - intros id j' t [?|[-> ->]]%lookup_snoc_Some; [by eapply inv_start0|congruence].
   - intros id j' [?|[-> ->]]%lookup_snoc_Some; [by eapply inv_created0|lia].
   - intros id [= <-]. apply Hfresh.
+  - intros id j' [?|[-> ->]]%lookup_snoc_Some; [by eapply inv_creq0|congruence].
 Qed.
 
 (** ** try_start (exempt job) *)
@@ -319,13 +324,13 @@ Proof.
 Qed.
 
 (** ** the events *)
-Lemma schedule_inv s p gok : RInv s → RInv (r_schedule s p gok).1.
+Lemma schedule_inv s p gok sn : RInv s → RInv (r_schedule s p gok sn).1.
 Proof.
   intros Hinv. unfold r_schedule.
   destruct (rs_shut s); [done|].
   destruct (lookup_def (rs_defs s) p) as [d|] eqn:Hd; [|done].
   set (id := length (rs_jobs s)).
-  set (nj := r_new_job s p d gok).
+  set (nj := r_new_job s p d gok sn).
   set (s1 := r_set_jobs s (rs_jobs s ++ [nj])).
   assert (Hinv1 : RInvX s1 (Some id)).
   { apply append_inv; try done. subst nj. simpl. intros Ht. apply Nat.ltb_ge in Ht. lia. }
@@ -446,6 +451,7 @@ Proof.
   { eapply (upd_inv s None None id j); try done.
     all: try (simpl; by apply (inv_live _ _ Hinv id j)).
     all: try (simpl; by apply (inv_comp _ _ Hinv id j)).
+    all: try (simpl; by apply (inv_creq _ _ Hinv id j)).
     all: try (simpl; intros t0 Ht0; by apply (inv_start _ _ Hinv id j t0)).
     - intros Hq. destruct (inv_wl _ _ Hinv _ _ Hq) as (j' & Hj' & _ & Hw' & _). rewrite Hj in Hj'. by injection Hj' as <-.
     - by left. }
@@ -466,6 +472,7 @@ Proof.
     all: try (simpl; intros t0 Ht0; by apply (inv_start _ _ Hinv id j t0)).
     all: try by left.
     all: try by rewrite Hnw.
+    all: try (simpl; intros Hcq _; rewrite Hcq; by rewrite orb_true_r).
     intros Hq. destruct (inv_wl _ _ Hinv _ _ Hq) as (j' & Hj' & _ & Hw' & _). rewrite Hj in Hj'. injection Hj' as <-.
     apply waiting_inv in Hw' as [? _]. congruence. }
   destruct (r_removed j); intros [= <-]; [done|]. by apply dequeue_inv.
@@ -491,8 +498,8 @@ Qed.
 
 Lemma rstep_inv s e s' r : RInv s → rstep s e = Some (s', r) → RInv s'.
 Proof.
-  intros Hinv. destruct e as [p gok|id|d|id|ds|id ec]; simpl.
-  - intros [= Heq]. replace s' with (r_schedule s p gok).1 by (by rewrite Heq). by apply schedule_inv.
+  intros Hinv. destruct e as [p gok sn|id|d|id|ds|id ec]; simpl.
+  - intros [= Heq]. replace s' with (r_schedule s p gok sn).1 by (by rewrite Heq). by apply schedule_inv.
   - intros [= Heq]. replace s' with (r_cancel s id).1 by (by rewrite Heq). by apply cancel_inv.
   - intros [= <- <-]. by apply tick_inv.
   - destruct (r_fire s id) as [s1|] eqn:Hf; simpl; [|done]. intros [= <- <-]. by eapply fire_inv.
